@@ -374,6 +374,14 @@ func WriteDNSAddress(buf *bytes.Buffer, addr *DNSAddress) error {
 		return ErrNilDNSAddress
 	}
 
+	// The hostname length is written as a single byte, so a longer hostname
+	// can't be represented: refuse it rather than truncate the length and
+	// corrupt the address list.
+	if len(addr.Hostname) > math.MaxUint8 {
+		return fmt.Errorf("%w: DNS hostname length %d",
+			ErrHostnameTooLong, len(addr.Hostname))
+	}
+
 	// Write the descriptor, the hostname length, and the hostname.
 	if _, err := buf.Write([]byte{byte(dnsAddr)}); err != nil {
 		return err
